@@ -6,13 +6,14 @@ CHECKS = {}
 def claim(pid, category, text, note, technique, ref):
     CHECKS[pid] = dict(category=category, text=text, note=note, technique=technique, ref=ref)
 
+HOLD = set()
 exec(open(os.path.join(V, 'tools', 'manifest_table.py')).read())
 
 props = [json.loads(l) for l in open(os.path.join(V, 'properties.jsonl'))]
 checks, na = [], []
 for p in props:
     pid = p['id']
-    if pid in CHECKS and os.path.exists(os.path.join(V, 'checks', pid.lower() + '.py')):
+    if pid in CHECKS and pid not in HOLD and os.path.exists(os.path.join(V, 'checks', pid.lower() + '.py')):
         c = CHECKS[pid]
         checks.append({
             'property_id': pid,
